@@ -81,7 +81,9 @@ def unwrap_future(maybe_future):
                 r = f.result()
             except CancelledError:
                 outer.cancel()
-            except Exception as err:
+            except BaseException as err:
+                # BaseException: whatever the source future holds (SystemExit,
+                # asyncio.CancelledError, ...) must settle this one as well.
                 outer.set_exception(err)
             else:
                 if _is_future_fast(r):
@@ -149,7 +151,7 @@ def gather_futures(source: Iterable[MaybeFuture[T]]) -> "MaybeFuture[List[T]]":
 
         try:
             d.result()
-        except Exception as err:
+        except BaseException as err:
             outer.set_exception(err)
             return
 
@@ -201,7 +203,7 @@ def chain(
                 res = then(f.result())
             except CancelledError:
                 target.cancel()
-            except Exception as err:
+            except BaseException as err:
                 if else_ is not None:
                     exc_type, cb = else_
                     if isinstance(err, exc_type):
@@ -209,7 +211,7 @@ def chain(
                         # target must fail then, not stay pending forever.
                         try:
                             handled = cb(err)
-                        except Exception as cb_err:
+                        except BaseException as cb_err:
                             target.set_exception(cb_err)
                         else:
                             target.set_result(handled)
